@@ -400,6 +400,34 @@ def r9_6(ctx):
     ctx.end()
 
 
+def r9_7(ctx):
+    """IDs are generated (uuid4 by default): a sort that orders candidates *by* an ID makes the result depend on what was generated,
+    i.e. differ between two builds of the same model.  (Comparing IDs for equality is fine.)"""
+    ctx.begin("R9.7", "no sort function orders its candidates by a generated ID", floor=4)
+    from ..sorters import sorter_table
+    from ..interp import FuncV
+    for fname in ("sort_task_list", "sort_worker_list", "sort_facility_list", "sort_workplace_list"):
+        f, enum, table = sorter_table(ctx, fname)
+        ctx.instance(fname, cells=sum(len(v) for v in table.values()))
+        seen = set()
+        for member, outs in table.items():
+            for o in outs:
+                for sv in o.sorts:
+                    if not isinstance(sv.key, FuncV) or id(sv.node) in seen:
+                        continue
+                    seen.add(id(sv.node))
+                    kn = sv.key.node
+                    pm = parent_map(kn)
+                    for n in ast.walk(kn):
+                        if isinstance(n, ast.Attribute) and n.attr == "ID":
+                            par = pm.get(id(n))
+                            if isinstance(par, ast.Compare) and all(isinstance(op, (ast.Eq, ast.NotEq, ast.In, ast.NotIn)) for op in par.ops):
+                                continue
+                            ctx.violation(construct(f, "orders-by-id"), f.loc(sv.node), f"{fname} sorts by `{ast.unparse(n)}` ({member}): IDs are generated per object, so the order of otherwise "
+                                          "equal candidates -- and with it the whole result -- changes from one build of the model to the next")
+    ctx.end()
+
+
 def r9_5(ctx):
     """'Running a simulation leaves no hidden state behind': a backward run must hand the dependency structure back
     unchanged, with no helper task or link left (shared with C17 R17.1-R17.3)."""
@@ -416,5 +444,6 @@ def run(ctx):
     r9_4(ctx)
     r9_5(ctx)
     r9_6(ctx)
+    r9_7(ctx)
     from .C14 import r14_2
     r14_2(ctx)  # derived state (component state) must be re-derived after the tasks were reset, or a second run starts from leftovers
